@@ -316,3 +316,8 @@ MUTANTS = [
             zck->comp.dict_size = zck->comp.dict_size;
         if(zck->comp.data_loc == zck->comp.data_idx->comp_length) {""", 'expect': None},
 ]
+
+
+# SESSION7 additions to the claim (clauses added in DESIGN section 12)
+CLAIM['technique'] += '; stream reads (dictionary import) un-kill the carried fields they write; static inventory restricted to random access'
+CLAIM['text'] += ' C14-a (extended): a reset made before the dictionary import does not count. C14-e: random access keeps nothing in static storage.'
